@@ -127,11 +127,13 @@ def write_scenarios(path, scens):
             f.write(json.dumps(s) + "\n")
 
 
-def run_busexec(ctx, scen_path, out_path, workers=None):
+def run_busexec(ctx, scen_path, out_path, workers=None, fault=None):
     summ = out_path + ".summary.json"
     db = ctx.sub("db")
     cmd = [os.path.join(ctx.bin, "busexec"), "-scenarios", scen_path, "-out", out_path, "-summary", summ,
            "-workers", str(workers or max(2, NCPU - 2)), "-seed", str(ctx.seed), "-scratch", db]
+    if fault:
+        cmd += ["-fault", fault]
     r = subprocess.run(cmd, capture_output=True, text=True, timeout=3600)
     if r.returncode != 0 or not os.path.exists(summ):
         raise ToolError("busexec failed:\n" + (r.stdout + r.stderr)[-3000:])
@@ -172,7 +174,8 @@ def _validate_chunk(args):
         elif rec[0] == "TRACE":
             traces += 1
     if consumed != len(lines):
-        return {"err": "trace validation did not consume the trace (%s of %d):\n%s" % (consumed, len(lines), (out + r.stderr)[-3000:])}
+        errs = "\n".join(l for l in out.splitlines() if l.startswith("Error:") or "ttempted" in l or "domain" in l)[:1500]
+        return {"err": "trace validation did not consume the trace (%s of %d):\n%s\n...\n%s" % (consumed, len(lines), errs, (out + r.stderr)[-1500:])}
     shutil.rmtree(d, ignore_errors=True)
     return {"viols": viols, "traces": traces, "steps": len(lines)}
 
